@@ -8,7 +8,6 @@ import (
 	"bytes"
 	"encoding/hex"
 	"fmt"
-	"sort"
 	"time"
 
 	"github.com/btcsuite/btcd/btcec"
@@ -48,13 +47,12 @@ func mkKey(h string) keyPair {
 	return keyPair{priv, a}
 }
 
-// validatorKeys returns n key pairs sorted by address (the order of a validator set) and the outsider.
-func validatorKeys(n int) ([]keyPair, keyPair) {
+// rawKeys returns n validator key pairs (unordered) and the outsider.
+func rawKeys(n int) ([]keyPair, keyPair) {
 	ks := make([]keyPair, n)
 	for i := range ks {
 		ks[i] = mkKey(keyHex[i])
 	}
-	sort.Slice(ks, func(i, j int) bool { return bytes.Compare(ks[i].addr[:], ks[j].addr[:]) < 0 })
 	return ks, mkKey(keyHex[4])
 }
 
